@@ -37,7 +37,7 @@ class MemoryStorage(dict):
 
     def __setitem__(self, key, value):
         uri, metadata = value
-        super(MemoryStorage, self).__setitem__(key, (uri, metadata or frozenset()))
+        super(MemoryStorage, self).__setitem__(key, (uri, metadata or set()))
 
     def optimized_prefix_list(self, prefix, return_metadata=False):
         return None
